@@ -17,6 +17,7 @@ pub mod c13;
 pub mod c14;
 pub mod c15;
 pub mod c17;
+pub mod c18;
 
 pub fn bind_or_die() {
     let r = crate::bind::run();
@@ -54,6 +55,7 @@ pub fn run(id: &str, tier: Tier) -> i32 {
         "C13" => c13::run(tier),
         "C14" => c14::run(tier),
         "C15" => { bind_or_die(); c15::run(tier) }
+        "C18" => c18::run(tier),
         _ => {
             eprintln!("unknown check {}", id);
             2
@@ -82,6 +84,7 @@ pub fn replay(id: &str, v: &Value) -> i32 {
         "C14" => c14::replay,
         "C15" => c15::replay,
         "C17" => c17::replay,
+        "C18" => c18::replay,
         _ => {
             eprintln!("no replay for {}", id);
             return 2;
